@@ -25,6 +25,7 @@ import (
 )
 
 type srcWrite struct {
+	Caller string // the unique calling function when Fn is an unexported helper with exactly one caller (else = Fn)
 	Var  string // pkg.name
 	Fn   string // pkg.func or pkg.Type.method
 	Kind string // assign | incdec | delete | addr | atomic | call:<Method> | send | recv   (suffix "+lock" when a Lock() call precedes an assignment in the function)
@@ -505,7 +506,7 @@ func pkgWriteFacts(root string, pkgs []string) ([]srcWrite, *callGraph, error) {
 						if kind != "atomic" && lockBefore(body, pos) {
 							kind += "+lock"
 						}
-						w := srcWrite{v, fn, kind}
+						w := srcWrite{Var: v, Fn: fn, Kind: kind}
 						if !seen[w] {
 							seen[w] = true
 							writes = append(writes, w)
@@ -550,7 +551,7 @@ func pkgWriteFacts(root string, pkgs []string) ([]srcWrite, *callGraph, error) {
 								return
 							}
 							for _, v := range vsAliased {
-								w := srcWrite{p.name + "." + v, fn, kind + "@alias"}
+								w := srcWrite{Var: p.name + "." + v, Fn: fn, Kind: kind + "@alias"}
 								if !seen[w] {
 									seen[w] = true
 									writes = append(writes, w)
@@ -558,8 +559,28 @@ func pkgWriteFacts(root string, pkgs []string) ([]srcWrite, *callGraph, error) {
 							}
 						})
 					}
+					if len(aliases) > 0 {
+						// mutating method calls through a local alias of a package-level object (vs = pkgScope; vs.SetValue(…))
+						ast.Inspect(body, func(n ast.Node) bool {
+							if c, ok := n.(*ast.CallExpr); ok {
+								if sel, ok := c.Fun.(*ast.SelectorExpr); ok {
+									m := sel.Sel.Name
+									if id, ok := sel.X.(*ast.Ident); ok && id.Obj != nil && (mutatingMethod[m] || strings.HasPrefix(m, "Set") || m == "Add" || m == "Clear") {
+										for _, v := range aliases[id.Obj] {
+											w := srcWrite{Var: p.name + "." + v, Fn: fn, Kind: "call:" + m + "@alias"}
+											if !seen[w] {
+												seen[w] = true
+												writes = append(writes, w)
+											}
+										}
+									}
+								}
+							}
+							return true
+						})
+					}
 					p.forEachPkgVarMutation(body, imports, func(v string, kind string, pos token.Pos) {
-						w := srcWrite{p.name + "." + v, fn, kind}
+						w := srcWrite{Var: p.name + "." + v, Fn: fn, Kind: kind}
 						if !seen[w] {
 							seen[w] = true
 							writes = append(writes, w)
@@ -579,6 +600,43 @@ func pkgWriteFacts(root string, pkgs []string) ([]srcWrite, *callGraph, error) {
 				}
 			}
 		}
+	}
+	// a write inside an unexported helper with exactly ONE calling function is attributed to that caller
+	// (extracting `nextID()` out of `newThing()` does not change who writes)
+	for i := range writes {
+		writes[i].Caller = writes[i].Fn
+		for rep := 0; rep < 2; rep++ {
+			fn := writes[i].Caller
+			dot := strings.LastIndexByte(fn, '.')
+			if dot < 0 || strings.Count(fn, ".") != 1 {
+				break // a method, or not pkg.func
+			}
+			bare := fn[dot+1:]
+			if bare == "" || ast.IsExported(bare) || len(cg.funcsByBare[bare]) != 1 {
+				break
+			}
+			var callers []string
+			for from, ms := range cg.mentions {
+				if ms[bare] && from != fn && !strings.HasPrefix(from, "var:") && strings.HasPrefix(from, fn[:dot+1]) {
+					callers = append(callers, from)
+				}
+			}
+			if len(callers) != 1 {
+				break
+			}
+			writes[i].Caller = callers[0]
+		}
+	}
+	{
+		dedup := map[srcWrite]bool{}
+		var ws []srcWrite
+		for _, w := range writes {
+			if !dedup[w] {
+				dedup[w] = true
+				ws = append(ws, w)
+			}
+		}
+		writes = ws
 	}
 	sort.Slice(writes, func(i, j int) bool {
 		a, b := writes[i], writes[j]
@@ -731,7 +789,7 @@ type objWrite struct {
 }
 
 func isSharedObjType(name string) bool {
-	return name == "ECALRuntimeProvider" || strings.HasSuffix(name, "Runtime") || name == "ASTNode" || name == "function"
+	return name == "ECALRuntimeProvider" || strings.HasSuffix(name, "Runtime") || name == "ASTNode" || name == "function" || name == "ecalDebugger"
 }
 
 func typeNameOf(e ast.Expr) string {
@@ -813,7 +871,10 @@ func sharedObjectWriteFacts(root string, pkg string) ([]objWrite, error) {
 					}
 				}
 			}
-			add(fd.Recv)
+			if !(fd.Recv != nil && len(fd.Recv.List) == 1 && typeNameOf(fd.Recv.List[0].Type) == "ecalDebugger" && fd.Name.Name != "InjectValue") {
+				// (of the debugger only the console's parse path — InjectValue — belongs here; the rest is C15 / C16)
+				add(fd.Recv)
+			}
 			add(fd.Type.Params)
 			// parameters of function literals inside count too
 			ast.Inspect(fd.Body, func(n ast.Node) bool {
@@ -827,6 +888,99 @@ func sharedObjectWriteFacts(root string, pkg string) ([]objWrite, error) {
 			}
 			fn := funcName(p.name, fd)
 			body := fd.Body
+			// function literals handed to <once>.Do(…): what they write is written once, with the
+			// happens-before edge of sync.Once
+			var onceRanges [][2]token.Pos
+			ast.Inspect(body, func(n ast.Node) bool {
+				if c, ok := n.(*ast.CallExpr); ok {
+					if sel, ok := c.Fun.(*ast.SelectorExpr); ok && sel.Sel.Name == "Do" && len(c.Args) == 1 {
+						if fl, ok := c.Args[0].(*ast.FuncLit); ok {
+							onceRanges = append(onceRanges, [2]token.Pos{fl.Pos(), fl.End()})
+						}
+					}
+				}
+				return true
+			})
+			inOnce := func(pos token.Pos) bool {
+				for _, r := range onceRanges {
+					if pos >= r[0] && pos < r[1] {
+						return true
+					}
+				}
+				return false
+			}
+			// local aliases of fields of shared objects: known := rt.erp.importTexts; known[k] = v
+			type aliasOf struct{ obj, field string }
+			fieldAlias := map[*ast.Object]aliasOf{}
+			ast.Inspect(body, func(n ast.Node) bool {
+				as, ok := n.(*ast.AssignStmt)
+				if !ok || len(as.Rhs) != 1 || len(as.Lhs) < 1 {
+					return true
+				}
+				if _, isCall := unparen(as.Rhs[0]).(*ast.CallExpr); isCall {
+					return true
+				}
+				rid, rpath := selectorPath(as.Rhs[0])
+				if rid == nil || rid.Obj == nil || len(rpath) == 0 {
+					return true
+				}
+				obj, ok := shared[rid.Obj]
+				if !ok {
+					return true
+				}
+				field := rpath[0]
+				if field == "erp" && len(rpath) > 1 {
+					obj, field = "ECALRuntimeProvider", rpath[1]
+				} else if field == "erp" || field == "baseRuntime" {
+					return true
+				} else if field == "node" {
+					return true
+				}
+				if lid, ok := as.Lhs[0].(*ast.Ident); ok && lid.Obj != nil && lid.Name != "_" {
+					fieldAlias[lid.Obj] = aliasOf{obj, field}
+				}
+				return true
+			})
+			if len(fieldAlias) > 0 {
+				forEachWrite(body, imports, func(t ast.Expr, kind string, pos token.Pos) {
+					id, _ := rootOf(t, imports)
+					if id == nil || id.Obj == nil || kind == "addr" {
+						return
+					}
+					al, ok := fieldAlias[id.Obj]
+					if !ok {
+						return
+					}
+					if _, bare := unparen(t).(*ast.Ident); bare {
+						return
+					}
+					phase := "run"
+					if fd.Name.Name == "Validate" && fd.Recv != nil {
+						phase = "validate"
+					}
+					w := objWrite{al.obj, al.field, fn, kind + "@alias", phase}
+					if !seen[w] {
+						seen[w] = true
+						out = append(out, w)
+					}
+				})
+				ast.Inspect(body, func(n ast.Node) bool {
+					if c, ok := n.(*ast.CallExpr); ok {
+						if sel, ok := c.Fun.(*ast.SelectorExpr); ok && (mutatingMethod[sel.Sel.Name] || sel.Sel.Name == "Add") {
+							if id, ok := sel.X.(*ast.Ident); ok && id.Obj != nil {
+								if al, ok := fieldAlias[id.Obj]; ok {
+									w := objWrite{al.obj, al.field, fn, "call:" + sel.Sel.Name + "@alias", "run"}
+									if !seen[w] {
+										seen[w] = true
+										out = append(out, w)
+									}
+								}
+							}
+						}
+					}
+					return true
+				})
+			}
 			forEachWrite(body, imports, func(t ast.Expr, kind string, pos token.Pos) {
 				id, path := selectorPath(t)
 				if id == nil || id.Obj == nil || len(path) == 0 {
@@ -850,6 +1004,8 @@ func sharedObjectWriteFacts(root string, pkg string) ([]objWrite, error) {
 				phase := "run"
 				if fd.Name.Name == "Validate" && fd.Recv != nil {
 					phase = "validate"
+				} else if inOnce(pos) {
+					phase = "once" // inside the function handed to sync.Once.Do
 				}
 				w := objWrite{obj, field, fn, kind, phase}
 				if !seen[w] {
@@ -914,6 +1070,85 @@ func sharedObjectWriteFacts(root string, pkg string) ([]objWrite, error) {
 }
 
 // ---------------------------------------------------------------- where the value of a package-level counter flows
+
+func firstFieldOf(p *srcPkg, typ string) string {
+	for _, f := range p.files {
+		for _, d := range f.Decls {
+			if gd, ok := d.(*ast.GenDecl); ok && gd.Tok == token.TYPE {
+				for _, sp := range gd.Specs {
+					if ts, ok := sp.(*ast.TypeSpec); ok && ts.Name.Name == typ {
+						if st, ok := ts.Type.(*ast.StructType); ok && len(st.Fields.List) > 0 && len(st.Fields.List[0].Names) > 0 {
+							return st.Fields.List[0].Names[0].Name
+						}
+					}
+				}
+			}
+		}
+	}
+	return ""
+}
+
+// flowOfCallsTo: every call `helper(…)` in the package — does its result go (through fmt.Sprint / strconv /
+// conversions) into the id field of a baseRuntime literal? "instanceID" if all do, "" if none found / not judged.
+func flowOfCallsTo(p *srcPkg, helper string) string {
+	res := ""
+	for _, f := range p.files {
+		parents := map[ast.Node]ast.Node{}
+		var stack []ast.Node
+		ast.Inspect(f, func(n ast.Node) bool {
+			if n == nil {
+				stack = stack[:len(stack)-1]
+				return true
+			}
+			if len(stack) > 0 {
+				parents[n] = stack[len(stack)-1]
+			}
+			stack = append(stack, n)
+			return true
+		})
+		ast.Inspect(f, func(n ast.Node) bool {
+			c, ok := n.(*ast.CallExpr)
+			if !ok {
+				return true
+			}
+			id, ok := c.Fun.(*ast.Ident)
+			if !ok || id.Name != helper {
+				return true
+			}
+			var cur ast.Node = c
+			verdict := "unknown:result of helper " + helper
+			for steps := 0; steps < 6; steps++ {
+				par := parents[cur]
+				switch x := par.(type) {
+				case *ast.ParenExpr:
+					cur = par
+					continue
+				case *ast.CallExpr:
+					if sel, ok := x.Fun.(*ast.SelectorExpr); ok {
+						if pid, ok := sel.X.(*ast.Ident); ok && (pid.Name == "fmt" || pid.Name == "strconv") {
+							cur = par
+							continue
+						}
+					}
+				case *ast.CompositeLit:
+					if typeNameOf(x.Type) == "baseRuntime" && len(x.Elts) > 0 && x.Elts[0] == cur {
+						verdict = "instanceID"
+					}
+				case *ast.KeyValueExpr:
+					if k, ok := x.Key.(*ast.Ident); ok && k.Name == firstFieldOf(p, "baseRuntime") {
+						verdict = "instanceID"
+					}
+				}
+				break
+			}
+			if res == "" || (res == "instanceID" && verdict != "instanceID") {
+				res = verdict
+			}
+			return true
+		})
+	}
+	return res
+}
 
 // counterFlows: for every place where the value of package-level variable `name` of package pkg is
 // obtained (result of an atomic Add / Load / method Add / plain read), where does the value go?
@@ -988,7 +1223,8 @@ func counterFlows(root, pkg, name string) ([][2]string, error) {
 						}
 						return "other:element of a " + typeNameOf(x.Type) + " literal"
 					case *ast.KeyValueExpr:
-						if k, ok := x.Key.(*ast.Ident); ok && k.Name == "instanceID" {
+						// the id field = the FIRST field of struct baseRuntime, whatever it is called
+						if k, ok := x.Key.(*ast.Ident); ok && k.Name == firstFieldOf(p, "baseRuntime") {
 							if cl, ok := parents[par].(*ast.CompositeLit); ok && typeNameOf(cl.Type) == "baseRuntime" {
 								return "instanceID"
 							}
@@ -1024,6 +1260,12 @@ func counterFlows(root, pkg, name string) ([][2]string, error) {
 					case *ast.IndexExpr:
 						return "other:index"
 					case *ast.ReturnStmt:
+						// a helper that just returns the value: where do the results of its calls go? (one level)
+						if depth < 2 && fd.Recv == nil {
+							if v := flowOfCallsTo(p, fd.Name.Name); v != "" {
+								return v
+							}
+						}
 						return "other:returned"
 					default:
 						return fmt.Sprintf("unknown:%T", par)
@@ -1110,6 +1352,47 @@ func validateCallSites(root, pkg string) ([][2]string, error) {
 				}
 				return true
 			})
+		}
+	}
+	sort.Slice(out, func(i, j int) bool { return out[i][0]+out[i][1] < out[j][0]+out[j][1] })
+	return out, nil
+}
+
+// ---------------------------------------------------------------- clocks on the parse path
+
+// timeUses: calls of the time package (After, Now, Sleep, Tick, NewTimer, NewTicker, AfterFunc, Since, Until) in the
+// functions for which reach says true: a parse that looks at a clock (e.g. a select with a timeout around the token
+// channel) is not a function of its input even though it writes nothing.
+func timeUses(root string, pkgs []string, reach map[string]bool) ([][2]string, error) {
+	clock := map[string]bool{"After": true, "Now": true, "Sleep": true, "Tick": true, "NewTimer": true, "NewTicker": true,
+		"AfterFunc": true, "Since": true, "Until": true}
+	var out [][2]string
+	seen := map[[2]string]bool{}
+	for _, pn := range pkgs {
+		p, err := loadSrcPkg(filepath.Join(root, pn))
+		if err != nil {
+			return nil, err
+		}
+		for _, f := range p.files {
+			imports := fileImports(f)
+			for _, d := range f.Decls {
+				fd, ok := d.(*ast.FuncDecl)
+				if !ok || fd.Body == nil || !reach[funcName(p.name, fd)] {
+					continue
+				}
+				ast.Inspect(fd.Body, func(n ast.Node) bool {
+					if sel, ok := n.(*ast.SelectorExpr); ok {
+						if id, ok := sel.X.(*ast.Ident); ok && id.Obj == nil && imports[id.Name] == "time" && clock[sel.Sel.Name] {
+							e := [2]string{funcName(p.name, fd), "time." + sel.Sel.Name}
+							if !seen[e] {
+								seen[e] = true
+								out = append(out, e)
+							}
+						}
+					}
+					return true
+				})
+			}
 		}
 	}
 	sort.Slice(out, func(i, j int) bool { return out[i][0]+out[i][1] < out[j][0]+out[j][1] })
